@@ -929,7 +929,7 @@ class World:
                 run.body(self)
 
             fset2.__name__ = name
-            fset2.__qualname__ = owner + ".set"
+            fset2.__qualname__ = "%s.%s" % (getattr(self, "_cur_pyname", None) or cname, name)
             run.idmap[id(fset2)] = owner + ".set"
             return bp.setter(self._decorate(fset2, owner + ".set", ms.get("setter") or {}, params=("self", "value")))
         if kind == "prop":
@@ -938,7 +938,7 @@ class World:
                 return run.body(self)
 
             fget.__name__ = name
-            fget.__qualname__ = owner
+            fget.__qualname__ = "%s.%s" % (getattr(self, "_cur_pyname", None) or cname, name)
             run.idmap[id(fget)] = owner
             g = self._decorate(fget, owner, ms, params=("self",))
             fset = None
@@ -948,7 +948,7 @@ class World:
                     run.body(self)
 
                 fset.__name__ = name
-                fset.__qualname__ = owner + ".set"
+                fset.__qualname__ = "%s.%s" % (getattr(self, "_cur_pyname", None) or cname, name)
                 run.idmap[id(fset)] = owner + ".set"
                 fset = self._decorate(fset, owner + ".set", ms["setter"], params=("self", "value"))
             return property(g, fset)
@@ -976,7 +976,8 @@ class World:
         else:
             raise HarnessError("unknown member kind %r" % kind)
         raw.__name__ = name
-        raw.__qualname__ = owner
+        # the qualified name is what Python would give it: <name of the class statement>.<member>
+        raw.__qualname__ = "%s.%s" % (getattr(self, "_cur_pyname", None) or cname, name)
         run.idmap[id(raw)] = owner
         fn = self._decorate(raw, owner, ms)
         if ms.get("wraps"):
@@ -1052,6 +1053,7 @@ class World:
             bases.append(icontract.DBC)
         pyname = cs.get("pyname", cname)  # several generated classes may deliberately share one Python name
         ns = {"__qualname__": pyname, "__module__": "verif_world"}
+        self._cur_pyname = pyname
         if cs.get("init") is not None:
             init_base = base_cls if (base_cls is not None and self._spec_has_init(base_name)) else None
             ns["__init__"] = self._build_init(cname, cs["init"], init_base)
